@@ -416,7 +416,8 @@ def gen_scenario(scen: Choices, cls, cfg):
         elif kind == "op":
             fam = scen.weighted([(4, "basic"), (2, "composite"), (3, "rowwise"), (3, "select")])
             step = {"kind": "op", "op": ops.gen_op(scen, fam, ds, mask_kinds=("none", "bool", "slice", "positions"))}
-            if len(step["op"].get("cols", ())) == 1 and step["op"]["op"] in ops.BASIC + ops.ROWWISE and scen.chance(1, 6):
+            # (under the pre-emptive pool model far more often: the two tasks' bodies can overlap there)
+            if len(step["op"].get("cols", ())) == 1 and step["op"]["op"] in ops.BASIC + ops.ROWWISE and scen.chance(*((1, 2) if st.get("preempt") else (1, 6))):
                 step["alias_cols"] = True
         elif kind == "fn":
             step = {"kind": "fn", "op": gen_fn_op(scen, ds)}
